@@ -9,7 +9,7 @@ import (
 // S4 scoping: all nestings (depth <= 3) of scope-introducing constructs, each optionally
 // re-declaring or assigning one of two names, with reads after every scope exit.
 
-var scopeKinds = []string{"block", "if", "loop", "for", "catch", "closure", "fn", "match", "while", "try", "else", "else-if", "match-default", "if-with-unexecuted-else"}
+var scopeKinds = []string{"block", "if", "loop", "for", "catch", "closure", "fn", "match", "while", "try", "else", "else-if", "match-default", "if-with-unexecuted-else", "try-that-throws-after-its-declarations"}
 var scopeActs = []string{"none", "shadow-x", "assign-x", "shadow-y", "shadow-x-then-assign"}
 
 func scopeDepth(tier string) int {
@@ -83,6 +83,12 @@ func scopeGen(tier string, idx int) (progCase, bool) {
 			return []hs.Stmt{hs.ES(&hs.BlockExpr{B: hs.Blk(nil, body...)}), rd(tag + "x")}
 		case "if":
 			return []hs.Stmt{hs.ES(&hs.If{Cond: hs.Bin("<", hs.V("y"), hs.I(100000)), Then: hs.Blk(nil, body...)}), rd(tag + "x")}
+		case "try-that-throws-after-its-declarations":
+			// the declarations of the try block are out of scope in the handler: a name it shadowed
+			// means the outer variable again
+			tryBody := append(append([]hs.Stmt{}, pre...), rd(tag+"a"), hs.ES(hs.CallN("throw", hs.S("t"))))
+			catchBody := append(append([]hs.Stmt{rd(tag + "c")}, gen(i+1, closureHere)...), rd(tag+"b"))
+			return []hs.Stmt{hs.ES(&hs.Try{Body: hs.Blk(nil, tryBody...), Var: "e", Catch: hs.Blk(nil, catchBody...)}), rd(tag + "x")}
 		case "else":
 			return []hs.Stmt{hs.ES(&hs.If{Cond: hs.Bin(">", hs.V("y"), hs.I(100000)), Then: hs.Blk(nil, hs.Println(hs.S("never"))), Else: hs.Blk(nil, body...)}), rd(tag + "x")}
 		case "else-if":
